@@ -55,6 +55,9 @@ var counterBounds = []uint64{0, 1, 2, 3, 9, 10, 11, 255, 256, 1<<31 - 1, 1 << 31
 	1<<53 - 1, 1 << 53, 1<<56 - 1, 1 << 56, 1<<56 + 5, 1<<63 - 1, 1 << 63, 1<<63 + 1, 1<<63 + 5, 1<<64 - 12, 1<<64 - 11, 1<<64 - 2, 1<<64 - 1}
 
 func genCounter(r *rng) uint64 {
+	if r.intn(7) == 0 {
+		return dictInt(r) + uint64(r.intn(5)) - 2 // near a number the code itself mentions
+	}
 	switch r.intn(4) {
 	case 0:
 		return pick(r, counterBounds)
@@ -169,6 +172,11 @@ var periods = []uint64{0, 0, 1, 2, 29, 30, 30, 30, 31, 60, 60, 3600, 86400, 1 <<
 func genSec(r *rng, period uint64) int64 {
 	if period == 0 {
 		period = 30
+	}
+	if r.intn(7) == 0 {
+		if v := int64(dictInt(r)) + int64(r.intn(5)) - 2; v >= 0 && v < 1<<62 {
+			return v // near a number the code itself mentions (also as a multiple of the usual periods)
+		}
 	}
 	switch r.intn(5) {
 	case 0:
@@ -549,6 +557,11 @@ func genCfg(r *rng, wild bool) cfgT {
 }
 
 func fieldLen(r *rng, want int, exact bool) int {
+	if r.intn(12) == 0 {
+		if v := dictInt(r); v <= 300 {
+			return int(v) // a length the code itself mentions
+		}
+	}
 	if r.intn(4) != 0 {
 		if exact {
 			return want
@@ -1176,7 +1189,7 @@ func genC17(r *rng, n int, hostile bool) []string {
 			out = append(out, fmt.Sprintf("leftpad %s %d", hxs(hexString(r)), w))
 			// spellings of code lengths / hashes: the documented ones, and near misses that must fall back to 6 / SHA-1
 			out = append(out, "fromstr "+hxs(pick(r, []string{"6", "8", "9", "10", "SHA1", "SHA256", "SHA512", "", "7", "06", "08", "+8", "010", "264", "266", "-248", " 8", "8 ",
-				"８", "sha1", "Sha256", "SHA-1", "SHA384", "SHA512 ", "MD5", "1e1", "0x8", string(r.bytes(1 + r.intn(4)))})))
+				"８", "sha1", "Sha256", "SHA-1", "SHA384", "SHA512 ", "MD5", "1e1", "0x8", string(r.bytes(1 + r.intn(4))), dictStrs[r.intn(len(dictStrs))]})))
 			// the Must* helper (documented to panic on text that is not hexadecimal): width in bytes, over-long values included
 			hs := hexString(r)
 			if r.intn(3) == 0 {
